@@ -122,8 +122,9 @@ where
                 Ok(p) => p,
                 Err(_) => return Outcome::pass(json!({"finalize": "Err"})),
             };
-            // the genuine proof is verified first (same thread), then the perturbed one
+            // the genuine proof is verified first (same thread), then a refused one, then the perturbed one
             let _ = proof.verify(pk, &msg, y.clone()).is_ok();
+            let _ = proof.verify(pk, b"another, longer message verified before the judged call", y.clone()).is_ok();
             let (label, u, vv) = parts::<C>(&proof);
             let id = <C as Pairing>::Signature::identity();
             let (u2, v2) = match pert {
@@ -224,8 +225,9 @@ where
                 blsful::verif_hooks::set_virtual_now_ms(None);
                 return Outcome::fail(json!({"timestamp": p.timestamp}), "the proof is not stamped with the prover's clock in milliseconds");
             }
-            // the genuine proof is verified first, without a timeout (same thread, same instant)
+            // the genuine proof is verified first, without a timeout (same thread, same instant), then a refused one
             let _ = p.verify(pk, &msg, None).is_ok();
+            let _ = p.verify(pk, b"another, longer message verified before the judged call", Some(0)).is_ok();
             let (label, u, vv) = parts::<C>(&p.proof);
             let id = <C as Pairing>::Signature::identity();
             let (u2, v2) = match pert {
@@ -247,12 +249,14 @@ where
             };
             let delay = geti(v, "delay") as u64;
             let tau = geti(v, "tau");
+            // the model's largest timeout stands for u64::MAX (and one below it)
+            let tau_of = |t: i64| -> Option<u64> { if t < 0 { None } else if t >= 2_000_000_000 { Some(u64::MAX) } else { Some(t as u64) } };
             blsful::verif_hooks::set_virtual_now_ms(Some(BASE_MS + delay));
-            let r = std::panic::catch_unwind(std::panic::AssertUnwindSafe(|| p.verify(pk2, &msg2, if tau < 0 { None } else { Some(tau as u64) })));
+            let r = std::panic::catch_unwind(std::panic::AssertUnwindSafe(|| p.verify(pk2, &msg2, tau_of(tau))));
             // the same call through the trait-level entry point, at the same instant
             let ts2 = p.timestamp;
             let rt = std::panic::catch_unwind(std::panic::AssertUnwindSafe(|| {
-                <C as BlsSignatureProof>::verify_timestamp_proof(u2, v2, pk2.0, ts2, if tau < 0 { None } else { Some(tau as u64) }, &msg2, crate::paths::dst::<C>(label2))
+                <C as BlsSignatureProof>::verify_timestamp_proof(u2, v2, pk2.0, ts2, tau_of(tau), &msg2, crate::paths::dst::<C>(label2))
             }));
             blsful::verif_hooks::set_virtual_now_ms(None);
             let r = match r {
